@@ -6,20 +6,27 @@ from props import judges
 from props.common import TRUSTED_BASE, ASSUMPTIONS
 
 ID = "C08"
-LEAN_MODULES = ["LexVerif.Props.C08", "LexVerif.Props.C08Decimal", "LexVerif.Props.C03", "LexVerif.Props.C04", "LexVerif.Props.RoundNE", "LexVerif.Props.Literals.WriteFloatWrite", "LexVerif.Props.Literals.WriteFloatShared", "LexVerif.Props.Literals.ParseFloatParse", "LexVerif.Props.Literals.ParseIntegerAlgorithm", "LexVerif.Props.Literals.WriteIntegerApi", "LexVerif.Props.Literals.CoreLib"]
+LEAN_MODULES = ["LexVerif.Props.C08", "LexVerif.Props.C08Decimal", "LexVerif.Props.C08Parser", "LexVerif.Props.C03", "LexVerif.Props.C04", "LexVerif.Props.RoundNE", "LexVerif.Props.Literals.WriteFloatWrite", "LexVerif.Props.Literals.WriteFloatShared", "LexVerif.Props.Literals.ParseFloatParse", "LexVerif.Props.Literals.ParseIntegerAlgorithm", "LexVerif.Props.Literals.WriteIntegerApi", "LexVerif.Props.Literals.CoreLib"]
 GEN = ["literals"]
 TRUSTED = TRUSTED_BASE + [
-    "the round trip is composed from separately proved halves (C03 writer = numeral, C04 parser = exact scan; oracle exactness) only for plain formats; for flagged formats "
-    "and floats it is measured: the implementation's own parser is run on the implementation's own output",
+    "integers: the round trip is composed from separately proved halves (C03 writer = numeral, C04 parser = exact scan; oracle exactness) for plain formats; for flagged integer formats it is measured",
+    "floats, decimal: proved from the formatting-layer model (tied to the code by the `wf` correspondence of C14/C09) to the documented grammar (tied to the parser model by C12 and to the code by the `pf` "
+    "correspondence); the writer's digits enter as the named hypothesis WriterDigitsShortest (C02; discharged for all zero-mantissa-field floats); the parser's conversion of the literal is C01's",
+    "floats, non-decimal radices and everything else end-to-end: measured — the implementation's own parser is run on the implementation's own output",
 ]
 RULE = ("write with the real writer, parse with the real complete parser in the SAME format with options agreeing on radix, decimal point, exponent character and special strings; "
         "compare bits. Integers: 12 types x radices x sign-flag formats x G-int values. Floats: decimal, power-of-two and mixed-base formats x syntax-flag formats (required/forbidden "
         "signs, required/forbidden exponent notation, exponent-without-fraction, required digits) x options (custom decimal point / exponent character, special strings, trim_floats, "
         "exponent breaks) x G-bits values incl. specials and signed zeros. non-trivial = written ok; distinct = distinct ops")
-TECHNIQUE = "Lean 4 proof (integer round trip on the models from the C03 and C04 theorems; exact value => same bits from roundNE_of_valQ) + write->parse correspondence through the real code for every format/option pair"
-LEVEL_TEXT = ("Proved in Lean: for plain formats and integer types, parse(spec) of the canonical numeral written by the proved writer model returns the value (composition of the C03 and C04 theorems with the "
-              "numeral theory); an exactly written float re-parses to identical bits. For floats in decimal the value equality inherits C01/C02 (not proved); for all flagged formats and option pairs the "
-              "round trip is exercised end-to-end on the real code. Partial proof, stated as such.")
+TECHNIQUE = ("Lean 4 proof (integers: round trip on the models from the C03 and C04 theorems; floats: writer formatting-layer model -> documented grammar of the same format for every valid decimal "
+             "format and compatible option pair, specials, signed zeros, value equality from Spec.shortest via roundNE) + write->parse correspondence through the real code for every format/option pair")
+LEVEL_TEXT = ("Proved in Lean: (integers) for plain formats, parse(spec) of the canonical numeral written by the proved writer model returns the value. (floats, decimal mantissa, any flags / exponent radix) "
+              "roundtrip_float_shape / roundtrip_float_model: whatever the write_float model returns for a finite value is derived in full by the documented grammar of the same format as a number with the written "
+              "sign, exactly the rounded digits and the carried exponent (exact value digits'*10^(sci'-len+1)), for every valid format and every valid option pair agreeing on punctuation and special strings, with one "
+              "exclusion (PrefixClear; negation witness finding_prefix_case); the text is separator-free; roundtrip_special / roundtrip_signed_zero; roundtrip_decimal_value: without a digit limit the bits read back "
+              "equal the bits written given WriterDigitsShortest (C02's open part; discharged for every zero-mantissa-field float of f32/f64 in C08Decimal); roundtrip_float_parser_model composes with C12 down to the "
+              "parser model for formats without separator/prefix. Not proved: non-decimal float radices, C01's conversion inside the parser, C02 in general. Partial proof, stated as such; everything is also "
+              "exercised end-to-end on the real code.")
 LEVEL_NOTE = "Trusted: Lean kernel; C03/C04 model<->code correspondence; differential harness; generators."
 
 
